@@ -26,8 +26,8 @@ AUDIT = "PysamlModel/Audit/C02.lean"
 DRIVER = "Drivers/C02.lean"
 PARALLEL = True
 CORRESPONDENCE = "Drivers/C02.lean (Xsw.checkSignature) vs SecurityContext._check_signature, per call, on the abstract tree of the verified document"
-RULE = ("systematic surgery on genuinely signed Responses: 8 carriers x {Response, Assertion} x ID policy {same, fresh, removed} x "
-        "signature policy {copied, stripped, moved}, duplicates of every singleton member on the signature path, Reference URI / "
+RULE = ("systematic surgery on genuinely signed Responses: 8 carriers x {Response, Assertion} x ID policy {same, fresh, removed, case-changed, padded} x "
+        "signature policy {copied, stripped, moved, original-then-fake}, duplicates of every singleton member on the signature path, Reference URI / "
         "transform / c14n / method rewrites, extra Reference / ds:Object, splices of two genuine messages, text edits; plus seeded "
         "random surgery; distinct = distinct variant documents")
 TRUSTED = C.TRUSTED_COMMON + [
